@@ -34,6 +34,13 @@ def programs(t):
                     lines.append(line(bi, T(rep, e)))
                 if abs(e) < g.promoted_digits(rep):
                     lines.append(line(T(rep, e), bi))
+    # 64-bit reps with more than 32 fractional digits -> narrow built-in integers (the high word decides; negatives truncate
+    # toward zero), and 8/16-bit reps with large positive exponents -> floating (rep * 2^E exceeds the promoted int)
+    for (rep, e, bi) in [('i64', -33, 'i32'), ('i64', -40, 'i8'), ('i64', -48, 'i16'), ('i64', -62, 'i32'), ('u64', -33, 'u32'), ('i64', -33, 'u8')] + ([('i64', -34, 'i32'), ('i64', -56, 'i16'), ('u64', -60, 'u8')] if t else []):
+        lines.append(line(T(rep, e), bi))
+    for f in ['f32', 'f64', 'f80']:
+        for (rep, e) in [('i16', 20), ('u16', 16), ('i8', 25), ('u8', 24), ('i16', 17), ('u8', 30)] + ([('i16', 16), ('u16', 15), ('i8', 24), ('i16', 30)] if t else []):
+            lines.append(line(T(rep, e), f))
     # radix 10 integer <-> integer
     for (s, d) in [('i8', 'i8'), ('i16', 'i32'), ('i32', 'i16'), ('i64', 'i64'), ('u8', 'u16')]:
         for se in (-3, -1, 0, 2):
